@@ -7,7 +7,10 @@ from concurrent.futures import ThreadPoolExecutor
 
 VERIF = os.path.dirname(os.path.dirname(os.path.abspath(__file__)))
 REPO = os.environ.get("VERIF_REPO", "/repo")
-BUILD = os.path.join(VERIF, "build")
+# VERIF_OUT redirects everything a run writes (build output, evidence, replay files) - used to run the
+# checks against a scratch copy of the repository (VERIF_REPO) without disturbing /verif's own files
+OUT = os.environ.get("VERIF_OUT", VERIF)
+BUILD = os.path.join(OUT, "build")
 GUARD = "ASSEMBLYLINE_VERIF"
 
 CC_FLAGS = ["-std=gnu99", "-D_GNU_SOURCE", "-D" + GUARD, "-DCBMC_RUN=1",
@@ -46,7 +49,7 @@ class Lemma:
     unwindset: str = ""
     safety: bool = True             # turn on CBMC's safety checks
     extra: list = field(default_factory=list)       # extra cbmc flags
-    object_bits: int = 0
+    object_bits: int = 10            # 2^10 addressable objects (cbmc default 2^8 is exceeded by the larger shapes)
     timeout: int = 600
     mem_gb: int = 14
     bounded: str = None             # text of the bound if this lemma is a bounded stand-in
@@ -171,7 +174,7 @@ def _run_lemma(l, known):
                 extra_us.append(ent.replace(fn + ".", fn + "_wrapped_for_contract_checking.", 1))
     if extra_us:
         us += "," + ",".join(extra_us)
-    cb = ["cbmc", binary, "--json-ui", "--trace", "--unwinding-assertions", "--drop-unused-functions",
+    cb = ["cbmc", binary, "--unwinding-assertions", "--drop-unused-functions",
           "--unwind", str(l.unwind), "--unwindset", us] + l.solver
     if l.safety:
         cb += SAFETY
@@ -180,8 +183,51 @@ def _run_lemma(l, known):
     if l.object_bits:
         cb += ["--object-bits", str(l.object_bits)]
     cb += l.extra
+    # stage 1: plain-text run.  (--json-ui attaches a counterexample trace to every failed
+    # obligation, the deliberately failing reachability sentinels included; on the loop-level
+    # lemmas with 10^6-byte objects those traces cost > 30 GB.)
     rc, out, err, secs = sh(cb, l.timeout, l.mem_gb)
-    return _judge(l, d, cb, rc, out, err, secs, log, t0, need_dfcc)
+    results, verdict = parse_plain(out)
+    if rc != -999 and l.slice and _real_failures(results, l):
+        # a failure under --slice-formula may be an artefact: decide it again on the full formula
+        cb = [c for c in cb if c != "--slice-formula"]
+        rc, out, err, secs2 = sh(cb, l.timeout, l.mem_gb)
+        secs += secs2
+        results, verdict = parse_plain(out)
+        log += "(re-run without --slice-formula to confirm a failure)\n"
+    log += "$ " + " ".join(cb) + "\n"
+    traces = {}
+    if rc != -999 and verdict and _real_failures(results, l):
+        # stage 2: an obligation really failed - get counterexample values for the replay
+        cbt = cb + ["--json-ui", "--trace"]
+        rc2, out2, err2, secs2 = sh(cbt, l.timeout, l.mem_gb)
+        try:
+            for item in json.loads(out2):
+                for r in item.get("result", []) if isinstance(item, dict) else []:
+                    if r.get("status") == "FAILURE" and "trace" in r:
+                        traces[r.get("property")] = (r.get("trace"), r.get("sourceLocation", {}))
+            log += "$ " + " ".join(cbt) + "\n"
+        except Exception:
+            log += "(the re-run with --trace did not finish: failure reported without counterexample values)\n"
+    with open(os.path.join(d, "cbmc.txt"), "w") as f:
+        f.write(out[-(8 << 20):])
+    with open(os.path.join(d, "log.txt"), "w") as f:
+        f.write(log + err)
+    return _judge(l, cb, rc, out, results, verdict, traces, secs, log, t0, need_dfcc)
+
+
+def parse_plain(out):
+    """[(property, description, status)] and the final verdict line of a plain-text cbmc run"""
+    res = []
+    for m in re.finditer(r"^\[([^\]\s]+)\] (?:line \d+ )?(.*): (SUCCESS|FAILURE|UNKNOWN|ERROR)$", out, re.M):
+        res.append({"property": m.group(1), "description": m.group(2), "status": m.group(3)})
+    v = re.search(r"^VERIFICATION (SUCCESSFUL|FAILED)$", out, re.M)
+    return res, (v.group(1) if v else None)
+
+
+def _real_failures(results, l):
+    return [r for r in results if r["status"] == "FAILURE" and not (l.expect_fail_prefix and r["description"].startswith(l.expect_fail_prefix))
+            and not any(re.search(rx, r["property"]) for rx in l.ignore)]
 
 
 def _cleanup(d, res):
@@ -194,48 +240,25 @@ def _cleanup(d, res):
             os.remove(os.path.join(d, f))
         except OSError:
             pass
-    cj = os.path.join(d, "cbmc.json")
     try:
         if res.status == "proved":
-            os.remove(cj)
-        elif os.path.getsize(cj) > 8 << 20:
-            with open(cj, "r+") as f:
-                f.truncate(8 << 20)
+            os.remove(os.path.join(d, "cbmc.txt"))
     except OSError:
         pass
 
 
-def _judge(l, d, cb, rc, out, err, secs, log, t0, need_dfcc):
-    if l.slice and '"status": "FAILURE"' in out.replace("VACUITY", "") and _has_real_failure(out, l):
-        # a failure under --slice-formula may be an artefact: decide it again on the full formula
-        cb = [c for c in cb if c != "--slice-formula"]
-        rc, out, err, secs = sh(cb, l.timeout, l.mem_gb)
-        log += "(re-run without --slice-formula to confirm a failure)\n"
-    log += "$ " + " ".join(cb) + "\n"
-    with open(os.path.join(d, "cbmc.json"), "w") as f:
-        f.write(out)
-    with open(os.path.join(d, "log.txt"), "w") as f:
-        f.write(log + err)
+def _judge(l, cb, rc, out, results, verdict, traces, secs, log, t0, need_dfcc):
     res = Result(l, "error", log=log, seconds=time.time() - t0, cmd=" ".join(cb))
     if rc == -999:
         res.detail = "cbmc timeout after %ds" % l.timeout
         return res
-    try:
-        js = json.loads(out)
-    except Exception:
-        res.detail = "cbmc output not parsable (rc=%d, OOM or crash): %s" % (rc, (out[-600:] + err[-600:]))
+    for m in re.finditer(r"Runtime (?:decision procedure|Solver): ([0-9.]+)s", out):
+        res.solver_s += float(m.group(1))
+    alltxt = out
+    if verdict is None or "Out of memory" in out[-3000:]:
+        res.detail = "cbmc stopped before the verdict (rc=%d: out of memory, crash or usage error): %s" % (rc, out[-600:])
         return res
-    results, msgs = None, []
-    for item in js:
-        if "result" in item:
-            results = item["result"]
-        if "messageText" in item:
-            msgs.append(item["messageText"])
-            m = re.search(r"Runtime (?:decision procedure|Solver): ([0-9.]+)s", item["messageText"])
-            if m:
-                res.solver_s += float(m.group(1))
-    alltxt = "\n".join(msgs)
-    if results is None:
+    if not results:
         res.detail = "cbmc produced no result block: " + alltxt[-1500:]
         return res
     if re.search(r"no body for (?:function|callee) (\S+)", alltxt):
@@ -271,10 +294,9 @@ def _judge(l, d, cb, rc, out, err, secs, log, t0, need_dfcc):
         elif status != "FAILURE":
             res.unknown.append(name + ": " + descr)     # cbmc leaves obligations UNKNOWN once another one has failed
         else:
-            res.failed.append({"name": name, "description": descr, "status": status,
-                               "location": r.get("sourceLocation", {}),
-                               "ghosts": trace_ghosts(r.get("trace", []), l.ghosts),
-                               "trace_tail": trace_tail(r.get("trace", []))})
+            tr, loc = traces.get(name, ([], {}))
+            res.failed.append({"name": name, "description": descr, "status": status, "location": loc,
+                               "ghosts": trace_ghosts(tr, l.ghosts), "trace_tail": trace_tail(tr)})
     res.sentinels = sentinels_ok
     if sentinels_bad and not res.failed:
         res.status = "error"
@@ -297,18 +319,6 @@ def _judge(l, d, cb, rc, out, err, secs, log, t0, need_dfcc):
 
 
 ALLOWED_NO_BODY = set()
-
-
-def _has_real_failure(out, l):
-    try:
-        js = json.loads(out)
-    except Exception:
-        return False
-    for item in js:
-        for r in item.get("result", []) if isinstance(item, dict) else []:
-            if r.get("status") == "FAILURE" and not r.get("description", "").startswith(l.expect_fail_prefix):
-                return True
-    return False
 
 
 def trace_ghosts(trace, names):
